@@ -206,25 +206,98 @@ def run(ctx):
                     if not (v[0] == "call" and v[1].split("::")[-1] in REN):
                         ok, why = False, "an element %s is pushed unrenamed" % show(v)[:60]
         ctx.ob("R2", path.split("::")[-1], ok and n > 0, ctx.where(F), why or "every element is renamed under the caller's map, in order")
-    for path, what in (("knowledge_base::get_rule", "clause"), ("s_complex::make_query", "query")):
-        F = prog.one(path)
-        if F is None:
-            ctx.missing("R2", path)
+    # every place where a renaming map enters the renamer family: the map must be created for that one use
+    from cfg import BodyCfg
+    MAPTY = "HashMap<std::string::String, usize>"
+
+    def map_params(b):
+        return [k for k in range(1, b.mir["arg_count"] + 1) if MAPTY in b.locals[k]["s"]]
+
+    def single_defs(b):
+        d = {}
+        for bi, blk in enumerate(b.blocks):
+            for st in blk["stmts"]:
+                if st["k"] == "assign" and not st["place"]["p"]:
+                    d.setdefault(st["place"]["l"], []).append((bi, st["rv"]))
+            t = blk["term"]
+            if t["k"] == "call" and not t["dest"]["p"]:
+                d.setdefault(t["dest"]["l"], []).append((bi, {"k": "call", "t": t}))
+        return d
+
+    def map_origin(b, defs, op):
+        """('param', k) | ('new', block) | ('other', text) for the map operand of a call."""
+        if op["k"] not in ("copy", "move"):
+            return ("other", "constant")
+        l = op["place"]["l"]
+        for _ in range(12):
+            if 1 <= l <= b.mir["arg_count"]:
+                return ("param", l)
+            ds = defs.get(l, [])
+            if len(ds) != 1:
+                return ("other", "%s assigned %d times" % (b.local_name(l), len(ds)))
+            bi, rv = ds[0]
+            if rv["k"] in ("ref", "rawptr"):
+                l = rv["place"]["l"]
+                continue
+            if rv["k"] == "use" and rv["op"]["k"] in ("copy", "move"):
+                l = rv["op"]["place"]["l"]
+                continue
+            if rv["k"] == "call":
+                nm = rv["t"]["callee"].get("resolved") or rv["t"]["callee"].get("path", "")
+                if "HashMap" in nm and nm.endswith("::new"):
+                    return ("new", bi)
+                return ("other", "result of %s" % nm)
+            return ("other", rv["k"])
+        return ("other", "too deep")
+    family = {b.path for b in prog.lib_bodies() if b.name in REN}
+    info = {}
+    for b in prog.lib_bodies():
+        if not any(MAPTY in l["s"] for l in b.locals):
             continue
-        ctx.fn(F)
-        ok, why, n = True, "", 0
-        for p in Walker(F, max_visits=2).paths():
-            maps = set()
-            for e in p.calls():
-                if e["callee"].split("::")[-1] in REN:
-                    n += 1
-                    m = strip(e["args"][1])
-                    maps.add(m)
-                    if not (m[0] == "call" and m[1].endswith("::new") and not m[2]):
-                        ok, why = False, "the %s is renamed under %s, not a map created for this use" % (what, show(m)[:60])
-            if len(maps) > 1:
-                ok, why = False, "different maps are used for parts of one %s" % what
-        ctx.ob("R2", "fresh-map(%s)" % path.split("::")[-1], ok and n > 0, ctx.where(F), why or "VarMap::new() inside the call, one map per %s" % what)
+        defs = single_defs(b)
+        for bi, t in b.calls():
+            nm = t["callee"].get("resolved") or t["callee"]["path"]
+            tgt = next((x for x in prog.lib_bodies() if x.path == nm), None)
+            if tgt is None:
+                continue
+            mp = map_params(tgt)
+            if not mp or len(t["args"]) < mp[0]:
+                continue
+            info.setdefault(b.path, []).append((b, bi, t, tgt, map_origin(b, defs, t["args"][mp[0] - 1])))
+    changed = True
+    while changed:
+        changed = False
+        for pth, calls in info.items():
+            if pth in family:
+                continue
+            if any(tgt.path in family and org[0] == "param" for b, bi, t, tgt, org in calls):
+                family.add(pth)      # forwards a caller-supplied map: part of the renamer family
+                changed = True
+    n_uses = 0
+    for pth, calls in sorted(info.items()):
+        if pth in family:
+            continue
+        for b, bi, t, tgt, org in calls:
+            if tgt.path not in family:
+                continue
+            n_uses += 1
+            ctx.fn(b)
+            ok, why = True, "VarMap::new() created for this one use"
+            if org[0] != "new":
+                ok, why = False, "the map handed to %s is %s, not a map created for this use" % (tgt.name, org[1] if org[0] == "other" else "a parameter")
+            else:
+                cfg_ = BodyCfg(b)
+                # a loop around the renaming of one *whole clause* (callee returns a Rule) must create the map inside:
+                # each iteration is a different clause use.  (Loops over the terms of one query/clause share one map.)
+                whole_clause = tgt.ret_ty == "rule::Rule"
+                for head, blocks in cfg_.loops().items():
+                    if whole_clause and bi in blocks and org[1] not in blocks:
+                        ok, why = False, ("the map is created outside the loop in which %s is called: clauses fetched in "
+                                          "different iterations share name -> id mappings" % tgt.name)
+            inst = "fresh-map(%s)" % b.name
+            k = sum(1 for o in ctx.obs if o["rule"] == "R2" and o["instance"].startswith(inst))
+            ctx.ob("R2", inst if k == 0 else "%s#%d" % (inst, k), ok, ctx.where(b, t["line"]), why)
+    ctx.floor("R2", n_uses, 2, "places where a fresh renaming map enters the renamer family")
     # no VarMap in statics / fields
     bad = [s for s in prog.lib["statics"] if "HashMap<std::string::String, usize>" in s["ty"]]
     ctx.ob("R2", "no-shared-map", not bad, "", "a VarMap is kept in a static: %s" % bad if bad else "no static holds a VarMap")
@@ -281,7 +354,7 @@ def run(ctx):
                     continue
                 # value = get_var_id() taken before the get_rule of this iteration
                 val = strip(e["args"][0])
-                gr = [j for j, x in enumerate(ev[:i]) if x["k"] == "call" and x["callee"].endswith("::get_rule")]
+                gr = [j for j, x in enumerate(ev[:i]) if x["k"] == "call" and S.is_fetch(x["callee"])]
                 if not (val[0] == "call" and val[1].endswith("get_var_id") and gr):
                     ok, why = False, "set_var_id restores %s" % show(val)
                     continue
